@@ -86,8 +86,11 @@ class Snapshot:
                     self.end_light(light)
 
         if not any_found:
-            self.append('No lights found.\n')
+            self.no_lights()
         return self
+
+    def no_lights(self):
+        self.append('No lights found.\n')
 
 
 class ScriptSnapshot(Snapshot):
@@ -118,6 +121,10 @@ class ScriptSnapshot(Snapshot):
     def power(self, light):
         fmt = 'on "{}"\n' if light.get_power() else 'off "{}"\n'
         self.append(fmt.format(light.get_name()))
+
+    def no_lights(self):
+        # The output has to remain a script.
+        self.append('# No lights found.\n')
 
 
 class InstructionSnapshot(Snapshot):
